@@ -109,14 +109,20 @@ def p_expression_lambda(p):
         p[0] = LambdaOp(args=p[2], expr=p[5])
 
 
-def p_dict_item(p):
-    """ dict_item : dict_item COMMA dict_item
-                  | expression COLON expression
+def p_dict_items(p):
+    """ dict_items : dict_items COMMA dict_item
+                   | dict_item
     """
-    if p.slice[1].type == 'dict_item':
+    if len(p) == 4:
         p[0] = p[1] + p[3]
     else:
-        p[0] = [(p[1], p[3])]
+        p[0] = p[1]
+
+
+def p_dict_item(p):
+    """ dict_item : expression COLON expression
+    """
+    p[0] = [(p[1], p[3])]
 
 
 def p_expression_binop(p):
@@ -155,8 +161,8 @@ def p_list_literal(p):
 
 def p_dict_literal(p):
     """ expression : LBRACE RBRACE
-                   | LBRACE dict_item RBRACE
-                   | LBRACE dict_item COMMA RBRACE
+                   | LBRACE dict_items RBRACE
+                   | LBRACE dict_items COMMA RBRACE
     """
     if len(p) == 3:
         p[0] = CallOp(name='dict', args=[])
